@@ -46,3 +46,12 @@ for t in facts.EXPECTED_TARGETS:
 with open(os.path.join(HERE, "rules", "known_sigs.json"), "w") as fh:
     json.dump(sigs, fh, indent=0, sort_keys=True)
 print(len(sigs), "function signatures")
+
+consts = {}
+for t in facts.EXPECTED_TARGETS:
+    for k, c in json.load(open(os.path.join(d, t + ".json")))["consts"].items():
+        if k.split("::")[0] in ("dns_types", "dns_resolver", "resolved", "dnsq", "htoh", "htoz", "ztoh", "ztoz"):
+            consts.setdefault(k, [c.get("ty"), c.get("val")])
+with open(os.path.join(HERE, "rules", "known_consts.json"), "w") as fh:
+    json.dump(consts, fh, indent=0, sort_keys=True)
+print(len(consts), "local constants")
